@@ -1,7 +1,7 @@
 --------------------------- MODULE MC_AnkoEnvConc ---------------------------
 EXTENDS AnkoEnvConc
 AlphaFull == {Op("Define", "x", 1), Op("Set", "x", 2), Op("Get", "x", 0), Op("Delete", "x", 0), Op("DeleteGlobal", "x", 0),
-              Op("Copy", "", 0), Op("Symbols", "", 0), Op("Addr", "x", 0), Op("Get", "p", 0)}
+              Op("Copy", "", 0), Op("Symbols", "", 0), Op("Addr", "x", 0), Op("Get", "p", 0), Op("Get", "ext", 0)}
 AlphaCore == {Op("Define", "x", 1), Op("Set", "x", 2), Op("Get", "x", 0), Op("Delete", "x", 0), Op("DeleteGlobal", "x", 0), Op("Copy", "", 0)}
 AlphaWrites == {Op("Define", "x", 1), Op("Set", "x", 2), Op("Delete", "x", 0), Op("DeleteGlobal", "x", 0), Op("Copy", "", 0), Op("Define", "y", 3)}
 Tabs == {[n \in {} |-> 0], [n \in {"x"} |-> 5]}
